@@ -106,7 +106,7 @@ Section Rel.
   | vr_clos : forall ps b fr k, dom p b = true -> forallb (binder_ok p) ps = true ->
                                 vrel (VClos ps b fr) (VClos ps (fst (rw p k b)) fr)
   | vr_prim : forall q, vrel (VPrim q) (VPrim q)
-  | vr_rec : a_method (p_anal p) = false -> vrel (VPrim PRecurse) (VPrim POvld).   (* the bare name recurse in a function *)
+  | vr_rec : a_method (p_anal p) = false -> vrel (VPrim PRecurse) (VPrim (POvld (p_id p))).   (* the bare name recurse in a function *)
 
   Definition orel (a b : option val) : Prop :=
     match a, b with None, None => True | Some v, Some v' => vrel v v' | _, _ => False end.
